@@ -600,7 +600,11 @@ func (c *FnCtx) closureTerm(fr *Frame, st *State, clo *Closure, params []Val) (r
 	c.stack = c.stack[:len(c.stack)-1]
 	// a closure used as a predicate must not write the heap
 	for k, v := range rst.heap {
-		if st.heap[k] != v && !strings.HasPrefix(k, "ghost$") {
+		before, had := st.heap[k]
+		if !had {
+			before = q(k + "@0")
+		}
+		if before != v && !strings.HasPrefix(k, "ghost$") {
 			c.unsupported("closure %s writes heap component %s", clo.Fn.Name(), k)
 		}
 	}
